@@ -20,6 +20,9 @@ import (
 // Tick is the virtual-time unit used by scenarios.
 const Tick = int64(time.Millisecond)
 
+// Tick2 is one tick as a duration.
+const Tick2 = time.Millisecond
+
 type MatchKind int
 
 const (
@@ -71,6 +74,7 @@ type ClientScenario struct {
 	Horizon    int64 // ticks; calls with Tries<0 are cancelled by the harness here (0 = none)
 	FailWrites []int // indices of WriteTo calls that fail with an injected error
 	CloseErr   bool  // the connection's Close reports an error (and closes)
+	Decoy      bool  // a second client with a different configuration is constructed (and closed) after the one under test
 	Log        bool  // the client is configured with its debug logger (output discarded) and, for DHCPv6, with WithLogDroppedPackets
 	Bound      int
 	Rules      string // which rule groups the oracle enforces: any of "ABCDE..." see oracle
@@ -89,6 +93,9 @@ func (s *ClientScenario) String() string {
 	if s.Log {
 		b.WriteString("(debug logger, dropped packets logged) ")
 	}
+	if s.Decoy {
+		b.WriteString("(another client with another configuration constructed afterwards) ")
+	}
 	for _, c := range s.Calls {
 		fmt.Fprintf(&b, "{id%d m%d start%d cancel%d dl%v after%d}", c.ID, c.Match, c.StartAt, c.CancelAt, c.Deadline, c.After)
 	}
@@ -102,15 +109,23 @@ func (s *ClientScenario) String() string {
 
 var devNull, _ = os.OpenFile(os.DevNull, os.O_WRONLY, 0)
 
-// quietly builds a logger option whose output goes nowhere: the library's loggers capture
-// os.Stderr when the option is made, so it is swapped for the duration of that call only.
-func quietly[O any](mk func() O) O {
+// The library's debug loggers capture os.Stderr at the moment the option is applied (inside the
+// constructor), so the option is wrapped and os.Stderr swapped for the duration of that call only.
+func quiet(f func()) {
 	old := os.Stderr
 	if devNull != nil {
 		os.Stderr = devNull
 	}
 	defer func() { os.Stderr = old }()
-	return mk()
+	f()
+}
+
+func quiet4(o nclient4.ClientOpt) nclient4.ClientOpt {
+	return func(c *nclient4.Client) (err error) { quiet(func() { err = o(c) }); return }
+}
+
+func quiet6(o nclient6.ClientOpt) nclient6.ClientOpt {
+	return func(c *nclient6.Client) { quiet(func() { o(c) }) }
 }
 
 var clientMAC = net.HardwareAddr{0x02, 0x00, 0x5e, 0x10, 0x00, 0x01}
@@ -256,7 +271,7 @@ func (s *ClientScenario) body(out **clientRun) func() {
 		if !s.V6 {
 			opts4 := []nclient4.ClientOpt{nclient4.WithTimeout(T), nclient4.WithRetry(s.Tries), nclient4.WithServerAddr(serverAddr)}
 			if s.Log {
-				opts4 = append(opts4, quietly(nclient4.WithDebugLogger))
+				opts4 = append(opts4, quiet4(nclient4.WithDebugLogger()))
 			}
 			cl, err := nclient4.NewWithConn(conn, clientMAC, opts4...)
 			if err != nil {
@@ -266,6 +281,13 @@ func (s *ClientScenario) body(out **clientRun) func() {
 				nclient4.VerifSetBufferCap(cl, s.BufCap)
 			}
 			closeFn = cl.Close
+			if s.Decoy {
+				other, err := nclient4.NewWithConn(NewConn(&History{}), otherMAC, nclient4.WithTimeout(7*T+Tick2), nclient4.WithRetry(s.Tries+2))
+				if err != nil {
+					panic(err)
+				}
+				other.Close()
+			}
 			send = func(ctx context.Context, c CallSpec, idx int) (int, error) {
 				p, _ := dhcpv4.New(dhcpv4.WithTransactionID(xid4(c.ID)), dhcpv4.WithHwAddr(clientMAC), dhcpv4.WithMessageType(dhcpv4.MessageTypeDiscover))
 				if c.Pkt > 0 {
@@ -303,7 +325,7 @@ func (s *ClientScenario) body(out **clientRun) func() {
 		} else {
 			opts6 := []nclient6.ClientOpt{nclient6.WithTimeout(T), nclient6.WithRetry(s.Tries), nclient6.WithBroadcastAddr(serverAddr6)}
 			if s.Log {
-				opts6 = append(opts6, nclient6.WithLogDroppedPackets(), quietly(nclient6.WithDebugLogger))
+				opts6 = append(opts6, nclient6.WithLogDroppedPackets(), quiet6(nclient6.WithDebugLogger()))
 			}
 			cl, err := nclient6.NewWithConn(conn, clientMAC, opts6...)
 			if err != nil {
@@ -313,6 +335,13 @@ func (s *ClientScenario) body(out **clientRun) func() {
 				nclient6.VerifSetBufferCap(cl, s.BufCap)
 			}
 			closeFn = cl.Close
+			if s.Decoy {
+				other, err := nclient6.NewWithConn(NewConn(&History{}), otherMAC, nclient6.WithTimeout(7*T+Tick2), nclient6.WithRetry(s.Tries+2))
+				if err != nil {
+					panic(err)
+				}
+				other.Close()
+			}
 			send = func(ctx context.Context, c CallSpec, idx int) (int, error) {
 				p := &dhcpv6.Message{MessageType: dhcpv6.MessageTypeSolicit, TransactionID: xid6(c.ID)}
 				p.AddOption(dhcpv6.OptClientID(&dhcpv6.DUIDLL{HWType: 1, LinkLayerAddr: clientMAC}))
